@@ -79,10 +79,11 @@ func queryGroup(ch *sim.Chain, gid tss.GroupID) (*client.GroupResult, error) {
 }
 
 // dkgRound1 = Round1.handleGroup
-func dkgRound1(seed string, gr *client.GroupResult, gid tss.GroupID, addr string) (m *dkgMember, msg sdk.Msg, err error) {
-	mid, err := gr.GetMemberID(addr)
-	if err != nil {
-		return nil, nil, err
+// (the daemon looks its member id up by address; here the driver names the member id, so that an account holding
+// several member ids of one group can act for each of them)
+func dkgRound1(seed string, gr *client.GroupResult, gid tss.GroupID, addr string, mid tss.MemberID) (m *dkgMember, msg sdk.Msg, err error) {
+	if int(mid) < 1 || int(mid) > len(gr.Members) || gr.Members[mid-1].Address != addr {
+		return nil, nil, fmt.Errorf("%s does not hold member id %d", addr, mid)
 	}
 	var data *tss.Round1Info
 	withDetRand(seed, func() { data, err = tss.GenerateRound1Info(mid, gr.Group.Threshold, gr.DKGContext) })
